@@ -191,7 +191,7 @@ func TestC05(t *testing.T) {
 		}
 		return e
 	}
-	r.Rapid(t, "repeated-sections", vf.N(6000, 700000), func(t *rapid.T) {
+	r.Rapid(t, "repeated-sections", vf.N(6000, 1500000), func(t *rapid.T) {
 		frame, class, nt := genRepeatedSection(t)
 		for _, entry := range entriesFor(t, frame) {
 			_, sig, msg := checkC05(entry, frame)
@@ -204,7 +204,7 @@ func TestC05(t *testing.T) {
 			}
 		}
 	})
-	r.Rapid(t, "hostile", vf.N(4000, 300000), func(t *rapid.T) {
+	r.Rapid(t, "hostile", vf.N(4000, 1000000), func(t *rapid.T) {
 		frame, kind := genHostileFrame(t)
 		for _, entry := range entriesFor(t, frame) {
 			_, sig, msg := checkC05(entry, frame)
